@@ -295,6 +295,8 @@ def _w(task):
                 continue
             kind, extra = r["outcome"]
             t.stats[f"outcome:{kind}"] += 1
+            t.stats[f"fault class:{fclass}"] += 1
+            t.stats[f"via:{via}"] += 1
             if fclass == "unmodified" and kind != "ok":
                 t.violation(f"harness: the valid {name} file does not load ({kind} {extra})", {"format": name, "file_type": ft, "route": route, "via": via, "fault": fclass, "data": blob}, {})
                 continue
@@ -381,11 +383,13 @@ def main(run):
             for lo in range(0, ntr, 1500):
                 tasks.append((name, ft, data, second, tier, route, "path+type", lo, min(ntr, lo + 1500)))
             total += ntr
+    strided = [k for k, v in S.items() if len(v[1]) > 1500 and tier == "quick"]
     run.log(f"{len(S)} seed files, {len(tasks)} tasks, {total} loads")
     res = harness.pmap_nd(_w, tasks)
     run.merge(res)
     cov = {
-        "exhaustive": True,
+        "exhaustive": not strided,
+        "caps": ("quick tier: seeds above 1500 bytes (" + ", ".join(strided) + ") are enumerated on a fixed grid (every 4th truncation length, byte faults at every 16th offset, numeric tokens of the first 1500 bytes); all other seeds and, in the thorough tier, all seeds at every offset") if strided else "none",
         "seeds": {k: len(v[1]) for k, v in S.items()},
         "rule": "for each seed file: every truncation length; every offset x 11-value byte alphabet; every numeric token / aligned header integer x extreme values; swaps, duplications and removals of lines / aligned 4- and 16-byte chunks; splices with another valid file on a 16-byte grid; (thorough) pairs of byte faults on a stride-7 grid and all loader entry points. distinct_nontrivial = distinct (format, fault class, exception type) outcomes observed",
         "loads": total,
